@@ -557,9 +557,9 @@ _DET = _DetOS()
 
 
 @contextlib.contextmanager
-def dst_night(tz='CET-1CEST,M3.5.0,M10.5.0/3', first=_dt.datetime(2022, 3, 27, 2, 10), step=1800):
+def dst_night(tz='CET-1CEST,M3.5.0,M10.5.0/3', first=_dt.datetime(2022, 3, 27, 2, 10), step=1500):
     """The process runs in a daylight-saving zone and the harness clock walks through the night the clocks go forward: ticks
-    are `step` seconds apart and tick 1 is the UTC instant `first` (02:10, 02:40, 03:10 ...: read as *local* wall-clock
+    are `step` seconds apart and tick 1 is the UTC instant `first` (02:10, 02:35, 03:00 ...: no two coincide when read as *local* wall-clock
     times the first two do not exist and the third precedes the second). Code that interprets the recorded naive UTC
     time in the local zone mis-orders them. Call after determinism()."""
     saved = os.environ.get('TZ')
